@@ -431,6 +431,8 @@ func proxyExtraWorker(outFile string) {
 	proxySeq(out, progress)
 	proxyConnect(out, progress)
 	proxyResStatus(out, progress, lib.Tier())
+	proxyLoopInner(out, progress)
+	proxyMITMPlain(out, progress)
 	out.Done = true
 	b, _ := json.Marshal(out)
 	os.WriteFile(outFile, b, 0o644)
@@ -461,8 +463,10 @@ func runProxyExtra(rep *lib.Report, tier string) {
 			kind = "panic"
 		}
 		fam := "proxy_seq"
-		if strings.HasPrefix(string(pb), "proxy_connect") {
-			fam = "proxy_connect"
+		for _, f := range []string{"proxy_connect", "proxy_res_status", "proxy_loop_inner", "proxy_mitm_plain"} {
+			if strings.HasPrefix(string(pb), f) {
+				fam = f
+			}
 		}
 		rep.Violate(fam+":worker:"+kind, fmt.Sprintf("the worker died while running %q: %s", pb, tail), map[string]interface{}{"part": fam, "case": string(pb)})
 		setIncomplete(rep, "the proxy audit worker died")
